@@ -617,7 +617,8 @@ class C16Oracle(BaseOracle):
                     tiny = _tiny_of(vals + list(norm.values()))
                     err_f = max(EPS * abs(float(norm[f])), tiny * EPS)
                     err_p = max(EPS * abs(float(norm[piv])), tiny * EPS)
-                    bad = abs(float(lhs) - float(rhs)) > 16 * (abs(float(raw[piv])) * err_f + abs(float(raw[f])) * err_p) + 1e-300
+                    bad = abs(float(lhs) - float(rhs)) > 16 * (abs(float(raw[piv])) * err_f + abs(float(raw[f])) * err_p) \
+                        + 8 * tiny * EPS
                 if bad:
                     return self.v("ratios-not-preserved", "mode=%s raw=%r normalised=%r (features %r, %r)"
                                   % (mode, raw, norm, f, piv), explainer=k, mode=mode)
